@@ -430,7 +430,7 @@ func lemma1HitDiscriminator(docNum, normBits uint64) {
 //@ thin
 //@ tags [C13]
 //@ requires w != nil
-//@ loop 3 invariant !bm64Empty(newRoaring) ==> prevTerm != nil [C13]
+//@ assert (*Thesaurus).synonymsListFromOffset#1 : !bm64Empty(newRoaring) ==> bytesEq(row(prevTerm), off(prevTerm), len(prevTerm), row(term), off(term), len(term)) [C13]
 //@ assert (*vellum.Builder).Close#1 : bm64Empty(newRoaring) [C13]
 //@ ensures chanClosed(closeCh) && !old(chanClosed(closeCh)) ==> err == seg.ErrClosed [C18]
 //@ loop 1 invariant chanClosed(closeCh) == old(chanClosed(closeCh)) [C18]
